@@ -3,7 +3,7 @@
 The REAL GraphBuilder.build_model / Model.__init__ / Dist.update / _reduced_sum run symbolically on the enumerated shapes;
 every value and every density / calculation function is symbolic, so each obligation holds for all value assignments."""
 from pyvc.api import *
-from contracts.graph import G, M, N, SHAPES, TOTAL, calc_fn, install_graph_models
+from contracts.graph import G, M, N, SHAPES, SHAPES_C01, TOTAL, calc_fn, install_graph_models
 
 
 def LP(ip, fam, *args):
@@ -21,10 +21,14 @@ def expected(ip, shape, vals):
         return {"a": ("parameter", LP(ip, "Pa", v["a"])), "y": ("observed", LP(ip, "Lik", f("f_left", v["a"]), f("f_right", v["a"]), v["y"]))}
     if shape == "flat":
         return {"b": ("parameter", LP(ip, "Pb", v["b"])), "c": ("parameter", LP(ip, "Pc", v["c"])), "y": ("observed", LP(ip, "Lik", v["b"], v["c"], v["y"]))}
+    if shape == "weakdist":  # a WEAK variable (value = f_w(a)) that carries a distribution Dw(b); bare Value nodes feeding calculations
+        return {"a": ("parameter", LP(ip, "Pa", v["a"])), "w": ("observed", LP(ip, "Dw", v["b"], f("f_w", v["a"])))}
+    if shape == "weakdist_deep":
+        return {"a": ("parameter", LP(ip, "Pa", v["a"])), "w": ("observed", LP(ip, "Dw", v["b"], f("f_w", f("f_mid", v["a"]))))}
     raise KeyError(shape)
 
 
-STRONG = {"hier": ["tau", "mu", "y"], "diamond": ["a", "y"], "flat": ["b", "c", "y"]}
+STRONG = {"hier": ["tau", "mu", "y"], "diamond": ["a", "y"], "flat": ["b", "c", "y"], "weakdist": ["a", "b"], "weakdist_deep": ["a", "b"]}
 
 
 def totals_unit(shape, per_obs):
@@ -43,12 +47,19 @@ def totals_unit(shape, per_obs):
         c = ip.ctx
         install_graph_models(ip)
         g = G(ip)
-        model = g.build(*SHAPES[shape](g, per_obs=per_obs))
-        for phase in ("built", "reassigned"):
+        model = g.build(*SHAPES_C01[shape](g, per_obs=per_obs))
+        for phase in ("built", "reassigned", "reassigned_auto_update_off_named_update"):
             if phase == "reassigned":
                 for nm in STRONG[shape]:
                     ip.setattr(model.f["_vars"][nm], "value", z3.Const(f"new_{nm}", U))
                 vals = {nm: z3.Const(f"new_{nm}", U) for nm in STRONG[shape]}
+            elif phase.startswith("reassigned_auto"):
+                # the totals refreshed through the named entry point (what simulate() and the Gibbs kernels use) with auto-update off
+                ip.setattr(model, "auto_update", False)
+                for nm in STRONG[shape]:
+                    ip.setattr(model.f["_vars"][nm], "value", z3.Const(f"third_{nm}", U))
+                ip.call(method(ip, model, "update"), ["_model_log_prob", "_model_log_lik", "_model_log_prior"], {})
+                vals = {nm: z3.Const(f"third_{nm}", U) for nm in STRONG[shape]}
             else:
                 vals = {nm: z3.Const(f"val_{nm}", U) for nm in STRONG[shape]}
             exp = expected(ip, shape, vals)
@@ -57,11 +68,12 @@ def totals_unit(shape, per_obs):
             c.oblige(f"{phase}.log_lik_is_observed_part", lik == sum((t for fl, t in exp.values() if fl == "observed"), z3.RealVal(0)))
             c.oblige(f"{phase}.log_prior_is_parameter_part", prior == sum((t for fl, t in exp.values() if fl == "parameter"), z3.RealVal(0)))
             c.oblige(f"{phase}.decomposition", prob == lik + prior)
-            c.oblige(f"{phase}.nothing_outdated", not any(ip.truth(ip.getattr(n_, "outdated")) is True for n_ in model.f["_nodes"].values()))
+            if not phase.startswith("reassigned_auto"):  # (after a NAMED update, nodes that feed no total may legitimately stay outdated)
+                c.oblige(f"{phase}.nothing_outdated", not any(ip.truth(ip.getattr(n_, "outdated")) is True for n_ in model.f["_nodes"].values()))
     return u
 
 
-for _s in SHAPES:
+for _s in SHAPES_C01:
     for _p in (True, False):
         totals_unit(_s, _p)
 
@@ -242,3 +254,24 @@ class DefaultDict(dict):
         v = self._ip.call(self._factory, [], {})
         self[key] = v
         return v
+
+
+@unit("C02.obs_param_helpers", "C02", [f"{N}::obs", f"{N}::param", f"{N}::Var.observed.fset", f"{N}::Var.parameter.fset"])
+def u_helpers(ip):
+    """the helper constructors: obs(value, dist, name) is the variable Var(value, dist, name) flagged observed (and only that), param(...)
+    the one flagged parameter (and only that) - so a model written with the helpers enters the log-likelihood / log-prior as declared."""
+    c = ip.ctx
+    install_graph_models(ip)
+    g = G(ip)
+    for helper, flags in (("obs", (True, False)), ("param", (False, True))):
+        d = g.dist("Fam")
+        v = ip.call(ip.repo(f"{N}::{helper}"), [z3.Const("val", U), d, f"{helper}_var"], {})
+        c.oblige(f"{helper}.flags", (ip.getattr(v, "observed"), ip.getattr(v, "parameter")) == flags)
+        c.oblige(f"{helper}.is_the_plain_variable", v.clsname == "Var" and ip.getattr(v, "name") == f"{helper}_var" and ip.getattr(v, "dist_node") is d
+                 and ip.to_U(ip.getattr(v, "value")).eq(z3.Const("val", U)) and ip.getattr(v, "strong") is True)
+    # a model written with the helpers: totals as declared
+    mu = ip.call(ip.repo(f"{N}::param"), [z3.Const("val_mu", U), g.dist("Pmu"), "mu"], {})
+    y = ip.call(ip.repo(f"{N}::obs"), [z3.Const("val_y", U), g.dist("Lik", mu), "y"], {})
+    model = g.build(y)
+    c.oblige("model_with_helpers.log_lik", to_sort(ip.getattr(model, "log_lik"), Real) == TOTAL(ip.uf("logp_Lik", z3.Const("val_mu", U), z3.Const("val_y", U))))
+    c.oblige("model_with_helpers.log_prior", to_sort(ip.getattr(model, "log_prior"), Real) == TOTAL(ip.uf("logp_Pmu", z3.Const("val_mu", U))))
